@@ -649,6 +649,45 @@ def highQcProposalCheck_index : Int := %d
 		}
 		fmt.Fprintf(&b, "/-- the top-level statements of %s, in order -/\ndef src_%s_stmts : List String := [%s]\n", fn, fn, strings.Join(stmts, ", "))
 	}
+	// ---- StartElectionVotePhase (fact: the frame of the phase that forwards the lock — what it calls, what it assigns)
+	{
+		fd := bftF.FindFunc("BFT", "StartElectionVotePhase")
+		if fd == nil {
+			return "", fmt.Errorf("bft/bft.go: StartElectionVotePhase not found")
+		}
+		var calls, assigns, fwd []string
+		seen := map[string]bool{}
+		add := func(l *[]string, kind, x string) {
+			if !seen[kind+x] {
+				seen[kind+x] = true
+				*l = append(*l, fmt.Sprintf("%q", x))
+			}
+		}
+		ast.Inspect(fd.Body, func(n ast.Node) bool {
+			switch x := n.(type) {
+			case *ast.CallExpr:
+				if f := g.ExprText(x.Fun); !strings.HasPrefix(f, "b.log.") {
+					add(&calls, "c", f)
+				} else {
+					return false
+				}
+			case *ast.AssignStmt:
+				for _, l := range x.Lhs {
+					add(&assigns, "a", g.ExprText(l))
+				}
+			case *ast.IncDecStmt:
+				add(&assigns, "a", g.ExprText(x.X))
+			case *ast.KeyValueExpr:
+				if k, ok := x.Key.(*ast.Ident); ok && k.Name == "HighQc" {
+					add(&fwd, "f", g.ExprText(x.Value))
+				}
+			}
+			return true
+		})
+		fmt.Fprintf(&b, "/-- every function or method StartElectionVotePhase calls (logging aside), in order of first appearance -/\ndef src_StartElectionVotePhase_calls : List String := [%s]\n", strings.Join(calls, ", "))
+		fmt.Fprintf(&b, "/-- every left-hand side StartElectionVotePhase assigns -/\ndef src_StartElectionVotePhase_assigns : List String := [%s]\n", strings.Join(assigns, ", "))
+		fmt.Fprintf(&b, "/-- what the ELECTION_VOTE carries as `HighQc` -/\ndef src_StartElectionVotePhase_highQc : List String := [%s]\n", strings.Join(fwd, ", "))
+	}
 	// ---- liveness (C15): pacemaker threshold, wait-time arithmetic
 	utilF, err := g.ParseFile(filepath.Join(*repo, "lib/util.go"))
 	if err != nil {
